@@ -51,6 +51,10 @@ def c02(tier):
         with_model(run, "w-n%d" % n, sc)
     run.submit(apalache_job, "Ind_Sma")
     run.submit(apalache_job, "Ind_Ext")
+    norm = ["HLNormalizer", "Roc", "BinaryEntropy", "Vsct", "Vst"]
+    for n, L in ((2, 5), (3, 6)):
+        run.submit(p1_job, "w-tiny-n%d" % n, "MC_Def", {"prop": "C02", "cfgs": cfgs(norm[:4], [n]), "alphabet": [-2, 0, 1, 3], "unit": 1000000000, "maxlen": L})
+        run.submit(p1_job, "w-huge-n%d" % n, "MC_Def", {"prop": "C02", "cfgs": cfgs(norm, [n]), "alphabet": [-2000000, 0, 1000000, 3000000], "unit": 1, "maxlen": L})
     # larger windows on recorded integer streams (adversarial shapes), definition on the ghost window (P3)
     rnd = random.Random(202 + run.seed)
     big = []
@@ -81,6 +85,9 @@ def c05(tier):
             run.submit(p1_job, "rsi-n%d-a%d" % (n, alpha[0]), "MC_Def", sc)
             with_model(run, "rsi-n%d-a%d" % (n, alpha[0]), sc)
     run.submit(apalache_job, "Ind_MyRsi")
+    for n, L in ((2, 5), (3, 6)):
+        run.submit(p1_job, "rsi-tiny-n%d" % n, "MC_Def", {"prop": "C05", "cfgs": cfgs(kinds, [n]), "alphabet": [0, 1, 2, 3], "unit": 1000000000, "maxlen": L})
+        run.submit(p1_job, "rsi-huge-n%d" % n, "MC_Def", {"prop": "C05", "cfgs": cfgs(kinds, [n]), "alphabet": [-2000000, 0, 1000000, 3000000], "unit": 1, "maxlen": L})
     rnd = random.Random(505 + run.seed)
     big = [{"cfg": {"k": k, "n": n}, "unit": 1, "mode": "window", "eps": [1, 1000000000], "float": "f64",
             "xs": shapes(rnd, n, -40, 40, 300 if tier == "quick" else 3000), "k": 1}
@@ -101,6 +108,10 @@ def c06(tier):
         sc = {"prop": "C06", "cfgs": cfgs(kinds, [n]), "alphabet": alpha, "unit": 1, "maxlen": L}
         run.submit(p1_job, "trend-n%d-a%d" % (n, alpha[0]), "MC_Def", sc)
         with_model(run, "trend-n%d-a%d" % (n, alpha[0]), sc)
+    # the same definitions in very small and very large units (the statements hold for every input; an absolute threshold does not)
+    for n, L in ((3, 5), (4, 6)):
+        run.submit(p1_job, "trend-tiny-n%d" % n, "MC_Def", {"prop": "C06", "cfgs": cfgs(kinds, [n]), "alphabet": [0, 1, 2, 3], "unit": 1000000000, "maxlen": L})
+        run.submit(p1_job, "trend-huge-n%d" % n, "MC_Def", {"prop": "C06", "cfgs": cfgs(kinds, [n]), "alphabet": [-2000000, 0, 1000000, 3000000], "unit": 1, "maxlen": L})
     rnd = random.Random(606 + run.seed)
     big = [{"cfg": {"k": k, "n": n}, "unit": 1, "mode": "window", "eps": [1, 1000000000], "float": "f64",
             "xs": shapes(rnd, n, -40 if k != "CenterOfGravity" else 1, 40, 250 if tier == "quick" else 2000), "k": 1}
@@ -320,7 +331,7 @@ def c10(tier):
     for n, L in plan:
         cf = c10_cfgs(n) + (LAG if n == 1 else [])
         run.submit(pair_job, "add-n%d" % n, {"cfgs": cf, "alphabet": B, "pair_alphabet": [-1, 0, 1], "combos": combos, "unit": 1, "maxlen": L})
-        for a in ([-2, 1], [3, 1], [0, 1], [1, 3]):
+        for a in ([-2, 1], [3, 1], [0, 1], [1, 3], [1000, 1], [1, 1000]):
             rel_job(run, "homog-n%d-a%d_%d" % (n, a[0], a[1]), "C10", cf, [-2, 0, 1, 3], 1, min(L + 1, 6), a, [0, 1], "scale")
     return run.finish("pairs of input sequences (x, y) over {-1,0,1} with a*x+b*y for four (a,b), and every sequence with its multiple a*x "
                       "(a = -2, 3, 0, 1/3), each run through the real view; non-trivial = states where all runs report a value")
@@ -696,6 +707,10 @@ def c09(tier):
         tail = [rnd.randint(-1000, 1000) for _ in range(H)]
         add(cfg, "pair", [rnd.randint(-1000, 1000) for _ in range(2000)] + tail, [1000, -1000] * 1000 + tail)
         add(cfg, "pair", [0] * 2000 + tail, [rnd.choice([-1000, 1000]) for _ in range(2000)] + tail)
+        # a loud past followed by a quiet common tail: anything that remembers an extreme of the past (a running maximum
+        # used for normalisation, a peak that never decays) keeps the two runs apart
+        quiet = [rnd.randint(-60, 60) for _ in range(H)]
+        add(cfg, "pair", [rnd.choice([-1000, 1000, 0, 500]) for _ in range(1500)] + quiet, [rnd.randint(-5, 5) for _ in range(1500)] + quiet)
     out = record(run, "streams", progs)
     lines = []
     for m, r in zip(meta, out):
@@ -720,7 +735,8 @@ def c18(tier):
     for n in ((1, 3, 16) if tier == "quick" else (1, 3, 16, 64)):
         for cfg in c18_cfgs(n):
             L0 = 8 * (2 * n + 4)
-            exps.append({"cfg": cfg, "unit": 10, "marks": [L0, 4 * L0, 16 * L0 if tier == "quick" else 256 * L0], "period": [12, 15, 11, 18, 18, 9, 14]})
+            for period in ([12, 15, 11, 18, 18, 9, 14], [7], [5, 5, 9, 9, 9, 2]):      # varied, constant, ties
+                exps.append({"cfg": cfg, "unit": 10, "marks": [L0, 4 * L0, 16 * L0 if tier == "quick" else 256 * L0], "period": period})
     # model level: the machines' buffers stay under CellBound along constant and two-symbol streams four windows long
     for n in ((1, 3, 16) if tier == "quick" else (1, 2, 3, 5, 16, 64)):
         run.submit(model_job, "cells-n%d" % n, {"cfgs": [c for c in catalogue(n) if modelled(c)], "alphabet": [2] if n > 3 else [-1, 2], "unit": 1,
